@@ -144,3 +144,33 @@ def extra(chk, thorough):
     chk.oblige("monitor:first-come-first-served(same command)+non-blocking-same-command", fbad is None, json.dumps(fbad)[:400] if fbad else "")
     if fbad:
         chk.violation(fbad[1], {"case": fbad}, key="fcfs:" + fbad[0])
+
+    # whatever the (schema-valid) radio configuration says: every option of zboss_config that the schema accepts, at
+    # unusual values - mutual exclusion of blocking requests is not configurable
+    cbad = None
+    configs = [{"max_concurrent_requests": 2}, {"max_concurrent_requests": 8}, {"max_concurrent_requests": 1},
+               {"max_concurrent_requests": "auto"}, {"request_timeout": 30}, {"tx_power": 5}, {"led_mode": "off"},
+               {"skip_bootloader": False}, {"auto_reconnect_retry_delay": 1}]
+    for zc in configs:
+        try:
+            r = A.Runner(zboss_config=zc)
+        except Exception:  # noqa  not accepted by the schema in this tree: nothing to check
+            continue
+        try:
+            steps, real = [], []
+            for e in [("issue", 1, "b1"), ("ack", -1), ("issue", 2, "b1b"), ("issue", 3, "nb1"), ("issue", 4, "b2"), ("ack", -1),
+                      ("tick", 300), ("rsp", "b1"), ("ack", -1), ("rsp", "b1b"), ("ack", -1), ("ack", -1), ("rsp", "b2"), ("tick", 6000)]:
+                if e == ("ack", -1):
+                    e = ("ack", r.cur_seq())
+                real.append(e)
+                steps.append(T.canon_step(r.step(e)))
+        finally:
+            r.close()
+        chk.evaluations += 1
+        chk.count("configurations")
+        m = T.mon_blocking(real, steps)
+        if m is not None and cbad is None:
+            cbad = (zc, m, [" ".join(st) for st in steps])
+    chk.oblige("monitor:blocking-exclusion-under-every-configuration-option", cbad is None, json.dumps(cbad)[:400] if cbad else "")
+    if cbad:
+        chk.violation("with zboss_config %s: %s" % (json.dumps(cbad[0]), cbad[1]), {"case": cbad}, key="config:%s" % sorted(cbad[0])[0])
